@@ -199,6 +199,58 @@ Section PROGS.
               end)
         end).
 
+  (* The same protocol with the HANDLE's in-memory state at every exit: (id, in-memory state point data).
+     The data was modified BEFORE _save runs; it is restored from the file only after a successful rollback
+     (re-read); every other failing exit keeps the rejected value in memory.  [rekey_h_forget] below: forgetting
+     the handle state gives [rekey]. *)
+  Definition rekey_h {A} (ws : path) (old_id : str) (new_sp : json)
+                     (k : str * json -> unit + perr -> prog A) : prog A :=
+    let new_id := calc_id frepr new_sp in
+    if str_eqb old_id new_id then k (old_id, new_sp) (inl tt)
+    else
+      let odir := ws ++ [old_id] in
+      let ndir := ws ++ [new_id] in
+      let fname := odir ++ [SPF] in
+      let bak := odir ++ [SPT] in
+      let phase2 (should_init : bool) : prog A :=
+        Do (CUnlink (ndir ++ [SPT])) (fun r =>
+          match r with
+          | FOk _ | FErr ENOENT =>
+              if should_init then job_init ws new_sp false (fun r0 => k (new_id, new_sp) r0) else k (new_id, new_sp) (inl tt)
+          | FErr e => k (new_id, new_sp) (inr (POs e))
+          end) in
+      Do (CRename fname bak) (fun r =>
+        match r with
+        | FErr ENOENT => phase2 false
+        | FErr e => k (old_id, new_sp) (inr (POs e))            (* the rejected value stays in memory *)
+        | FOk _ =>
+            Do (CRename odir ndir) (fun r1 =>
+              match r1 with
+              | FOk _ => phase2 true
+              | FErr e =>
+                  Do (CRename bak fname) (fun r2 =>
+                    match r2 with
+                    | FErr ENOENT => phase2 false
+                    | FErr e2 => k (old_id, new_sp) (inr (POs e2))
+                    | FOk _ =>
+                        Do (CRead fname) (fun r3 =>
+                          let continue_ (d : json) : prog A :=
+                            if dest_exists_e e then k (old_id, d) (inr (PExn EDestinationExists))
+                            else match e with ENOENT => phase2 false | _ => k (old_id, d) (inr (POs e)) end in
+                          match r3 with
+                          | FErr ENOENT => continue_ (JObj [])
+                          | FErr e3 => k (old_id, new_sp) (inr (POs e3))
+                          | FOk (RData d) =>
+                              match c_json d with
+                              | Some v => continue_ v                     (* self._update(file content) *)
+                              | None => k (old_id, new_sp) (inr (PExn EValueError))
+                              end
+                          | FOk _ => k (old_id, new_sp) (inr (PExn EOther))
+                          end)
+                    end)
+              end)
+        end).
+
   (* a handle opened by id: Job.statepoint loads and validates the file on first access *)
   Definition with_sp {A} (ws : path) (i : str) (k : json -> prog A) (fail : perr -> prog A) : prog A :=
     sp_load (ws ++ [i; SPF]) i (fun r => match r with inl v => k v | inr e => fail e end).
@@ -431,6 +483,26 @@ Section PROGS.
       | FOk _ => k (inr (PExn EOther))
       end).
 
+  (* Job.init for a handle whose id and in-memory state point may disagree (after a failed re-key) *)
+  Definition job_init_id {A} (ws : path) (i : str) (sp : json) (k : unit + perr -> prog A) : prog A :=
+    let dir := ws ++ [i] in
+    let file := dir ++ [SPF] in
+    sp_load file i (fun r =>
+      match r with
+      | inl _ => k (inl tt)
+      | inr _ =>
+          mkdir_p dir (fun r1 =>
+            match r1 with
+            | FErr e => k (inr (POs e))
+            | FOk _ =>
+                sp_save file sp false (fun r2 =>
+                  match r2 with
+                  | inr e => k (inr e)
+                  | inl _ => sp_load file i (fun r3 => match r3 with inl _ => k (inl tt) | inr e => k (inr e) end)
+                  end)
+            end)
+      end).
+
   (* ------------------------------------------------------------------ recovery observations *)
   (* Project._get_statepoint_from_workspace(job_id, validate=True) succeeds *)
   Definition validates (f : fs) (ws : path) (i : str) : bool :=
@@ -497,6 +569,75 @@ Definition op_prog (frepr : fl -> str) (atomic : bool) (o : cop) : prog unit :=
   | KRemove ws i => remove_job ws i ret_res
   | KClear ws i => clear_job frepr [] ws i ret_res
   end.
+
+(* ------------------------------------------------------------------ the handle across two operations *)
+(* in-memory state of a job handle that matters for a later operation: where it points and the state point
+   data it holds (None: not loaded yet — the first access reads and validates the file) *)
+Record hst := { hs_ws : path; hs_id : str; hs_sp : option json }.
+
+(* follow-up operations through the SAME handle *)
+Inductive fop :=
+| FSet (k : str) (v : json)        (* job.sp[k] = v      *)
+| FDoc (k : str) (v : json)        (* job.doc[k] = v     *)
+| FInit.                           (* job.init()         *)
+
+Definition set_key (d : json) (k : str) (v : json) : json :=
+  match d with JObj kvs => JObj (aset k v kvs) | _ => d end.
+
+Section HANDLE.
+  Variable frepr : fl -> str.
+  Variable atomic : bool.
+
+  (* first operation, with the handle state at its exit *)
+  Definition op1_h {A} (o : cop) (k : hst -> ores -> prog A) : prog A :=
+    match o with
+    | KInit ws sp force =>
+        let h := {| hs_ws := ws; hs_id := calc_id frepr sp; hs_sp := Some sp |} in
+        job_init frepr atomic [] ws sp force (k h)
+    | KRekey ws i nsp =>
+        with_sp frepr ws i
+          (fun _ => rekey_h frepr atomic [] ws i nsp
+                      (fun ex r => k {| hs_ws := ws; hs_id := fst ex; hs_sp := Some (snd ex) |} r))
+          (fun e => k {| hs_ws := ws; hs_id := i; hs_sp := None |} (inr e))
+    | KMove ws i dws =>
+        job_move frepr ws i dws (fun r =>
+          match r with
+          | inl _ => k {| hs_ws := dws; hs_id := i; hs_sp := None |} r
+          | inr _ => k {| hs_ws := ws; hs_id := i; hs_sp := None |} r
+          end)
+    | KClone ws i dws => job_clone frepr ws i dws (k {| hs_ws := ws; hs_id := i; hs_sp := None |})
+    | KRemove ws i => remove_job ws i (k {| hs_ws := ws; hs_id := i; hs_sp := None |})
+    | KClear ws i => clear_job frepr [] ws i (k {| hs_ws := ws; hs_id := i; hs_sp := None |})
+    end.
+
+  (* the follow-up; a handle that has not loaded its state point loads it first ([hs_sp] = None is also used,
+     soundly, where the handle has the VALID on-disk value in memory: re-reading it changes nothing but the
+     number of reads, and reads are not compared) *)
+  Definition fop_prog {A} (h : hst) (fo : fop) (k : ores -> prog A) : prog A :=
+    let ws := hs_ws h in
+    let i := hs_id h in
+    match fo with
+    | FSet key v =>
+        match hs_sp h with
+        | Some d => rekey frepr atomic [] ws i (set_key d key v) k
+        | None => with_sp frepr ws i (fun d => rekey frepr atomic [] ws i (set_key d key v) k) (fun e => k (inr e))
+        end
+    | FDoc key v =>
+        doc_load (ws ++ [i; DOCF]) (fun rd =>
+          match rd with
+          | inr e => k (inr e)
+          | inl d => doc_store frepr [] (ws ++ [i; DOCF]) (set_key d key v) k
+          end)
+    | FInit =>
+        match hs_sp h with
+        | Some d => job_init_id frepr atomic [] ws i d k
+        | None => with_sp frepr ws i (fun d => job_init_id frepr atomic [] ws i d k) (fun e => k (inr e))
+        end
+    end.
+
+  Definition follow_prog (o : cop) (fo : fop) : prog (ores * ores) :=
+    op1_h o (fun h r1 => fop_prog h fo (fun r2 => Ret (r1, r2))).
+End HANDLE.
 
 Definition is_removal (o : cop) : bool := match o with KRemove _ _ | KClear _ _ => true | _ => false end.
 
